@@ -313,6 +313,26 @@ def sites_in(f: FuncInfo) -> List[Dict[str, object]]:
             x = Renamer(m).visit(_copy.deepcopy(x))
             return _rename_comprehensions(x)
         ctx_f = B.mk_and([B.parse_pol(C(ct), cp) for ct, cp in tests[1:]])
+        # earlier `if c: raise` guards on the way are path conditions too; they are taken into the site's condition when they
+        # speak about the same things as the site (so that `if a: .. elif b: .. else: raise` and a leading guard clause
+        # `if not (a or b): raise` followed by `if a: .. else: ..` describe the same sites)
+        own_atoms = B.atoms_of(ctx_f) | B.atoms_of(B.parse_pol(C(t), pol))
+        cur2 = holder if holder is not None else r
+        while id(cur2) in pm_:
+            par2 = pm_[id(cur2)]
+            for fld in ("body", "orelse", "finalbody"):
+                blk = getattr(par2, fld, None)
+                if isinstance(blk, list) and any(cur2 is s_ for s_ in blk):
+                    for sib in blk:
+                        if sib is cur2:
+                            break
+                        if isinstance(sib, ast.If) and sib.body and isinstance(sib.body[-1], ast.Raise) and not sib.orelse:
+                            g = B.parse(C(sib.test))
+                            if B.atoms_of(g) & own_atoms:
+                                ctx_f = B.mk_and([ctx_f, B.mk_not(g)])
+            if isinstance(par2, (ast.FunctionDef, ast.AsyncFunctionDef, ast.For, ast.While)):
+                break
+            cur2 = par2
         isve = raise_is_value_error(r, f.node)
         base_loop = canon_iter(C(loop.iter)) if isinstance(loop, ast.For) else (norm(C(loop.test)) if loop is not None else None)
         for (dt, dpol, gens) in _split_raise_test(t, pol):
@@ -522,7 +542,10 @@ class CallFlow(Flow):
     def refine(self, test, pol, state):
         state = self._calls(test, state)
         g = canon_guard(test, pol)
-        return frozenset(w | {"?" + g} for w in state)
+        ng = canon_guard(test, not pol)
+        # a world that already passed the same test with the other outcome cannot take this branch
+        # (attributes tested by validation code are not re-bound between the tests)
+        return frozenset(w | {"?" + g} for w in state if ("?" + ng) not in w)
 
     def bind_for(self, stmt, state):
         return self._calls(stmt.iter, state)
